@@ -749,17 +749,18 @@ fn run_case(line: &str) -> String {
                     for e in &events[..k - 1] {
                         timg.apply(e);
                     }
-                    // alternately: the second half never arrived / the file was extended but the second half holds zeros
-                    let torn = if (k / 3) % 2 == 0 {
-                        data[..data.len() / 2].to_vec()
-                    } else {
-                        let mut d = data.clone();
-                        for b in d[data.len() / 2..].iter_mut() {
-                            *b = 0;
+                    // the first half of the write arrived; what the file held before stays where the second half did not
+                    // arrive; alternately, the part of the second half that lies beyond the old end of the file is absent,
+                    // or the file was extended over it and it holds zeros
+                    let half = data.len() / 2;
+                    timg.apply(&IoEvent::Write { path: path.clone(), offset: *offset, data: data[..half].to_vec() });
+                    if (k / 3) % 2 == 1 {
+                        let end = *offset as usize + data.len();
+                        let f = timg.files.entry(fname(path)).or_default();
+                        if f.len() < end {
+                            f.resize(end, 0);
                         }
-                        d
-                    };
-                    timg.apply(&IoEvent::Write { path: path.clone(), offset: *offset, data: torn });
+                    }
                     let pr = observe_image(&timg, &tables, cfg, false, false);
                     let acked_s = if acked.is_empty() { "-".to_string() } else { acked.iter().map(|u| u.to_string()).collect::<Vec<_>>().join(",") };
                     torn_groups.push((
